@@ -151,10 +151,16 @@ class _Judge:
       out.violate('raise/%s/to_proto/%s' % (tag, _site(e)), repr(e))
       return None, None
     try:
-      y = from_proto(wire(p1))
+      received = wire(p1)
+      y = from_proto(received)
     except Exception as e:  # pylint: disable=broad-except
       out.violate('raise/%s/from_proto/%s' % (tag, _site(e)), repr(e))
       return p1, None
+    # the receiver goes on using its message (a template it edits and sends
+    # again): the converted object must not change with it
+    for m in (received if isinstance(received, (list, tuple)) else [received]):
+      if hasattr(m, 'Clear'):
+        m.Clear()
     diffs = cn.diff(canon(x), canon(y))
     seen = set()
     for path, kind, detail, a, b in diffs:
